@@ -176,7 +176,12 @@ void harness(void) {
 #ifdef H_WAKE
 /* _dispatch_group_wake: every queued notification is submitted exactly once, waiters are woken iff HAS_WAITERS, references are balanced */
 static int pushes; static u64 pushed[4]; static int addr_wakes, rel_q, rel_n; 
-void _dispatch_lane_push(u64 q, u64 dc, u32 qos) { ASSERT(pushes < 4, "harness bound"); pushed[pushes++] = dc; }
+static u64 in_inject, newdc; static _Bool injected;
+/* SNAPSHOT: while the notifications are being fired another thread (which has re-entered the group) registers a new one: the exact memory effect of the MPSC push in
+   _dispatch_group_notify (exchange the tail, then link the predecessor or set the head).  It belongs to the NEW generation and must not be fired by this wake. */
+static void inject_notify(void) { injected = 1; u64 prev = IR_LD64(DG + P_OFF_dg_notify_tail); IR_ST64(newdc + P_OFF_dc_next, 0); IR_ST64(DG + P_OFF_dg_notify_tail, newdc);
+  if (prev) IR_ST64(prev + P_OFF_dc_next, newdc); else IR_ST64(DG + P_OFF_dg_notify_head, newdc); }
+void _dispatch_lane_push(u64 q, u64 dc, u32 qos) { ASSERT(pushes < 4, "harness bound"); pushed[pushes++] = dc; if (!injected && in_inject == (u64)pushes) inject_notify(); }
 void _dispatch_wake_by_address(u64 a) { ASSERT(a == GADDR + 4, "wakes sleepers on the generation word"); addr_wakes++; }
 void _os_object_release_internal(u64 o) { rel_q++; }
 void _os_object_release_internal_n(u64 o, u16 n) { ASSERT(o == DG, "group released"); rel_n += n; }
@@ -191,11 +196,15 @@ void harness(void) {
   for (int i = 0; i < 3; i++) if ((u64)i < in_n) { dc[i] = ir_bump(P_SZ_cont); IR_ST64(dc[i] + P_OFF_dc_flags, 0x4 /* DC_FLAG_CONSUME */); IR_ST64(dc[i] + P_OFF_dc_data, q);
     if (prev) IR_ST64(prev + P_OFF_dc_next, dc[i]); else IR_ST64(DG + P_OFF_dg_notify_head, dc[i]); prev = dc[i]; }
   IR_ST64(DG + P_OFF_dg_notify_tail, prev);
+  newdc = ir_bump(P_SZ_cont); IR_ST64(newdc + P_OFF_dc_flags, 0x4); IR_ST64(newdc + P_OFF_dc_data, q); SYM(in_inject); ASSUME(in_inject <= 3);     /* 0: nobody registers meanwhile; k: right after the k-th submission */
   _dispatch_group_wake(DG, (in_state & ~3ull) | in_flags, in_rel);
   if (in_flags & HAS_NOTIFS) {
+    for (int i = 0; i < 4; i++) if (i < pushes) ASSERT(pushed[i] != newdc, "NOT-BEFORE/SNAPSHOT: a notification registered while the previous generation's notifications are being fired is not fired with them (the list is detached before anything is submitted)");
     ASSERT((u64)pushes == in_n, "EXACTLY-ONCE: every queued notification is submitted exactly once");
     for (int i = 0; i < 3; i++) if ((u64)i < in_n) ASSERT(pushed[i] == dc[i], "in registration order, to its own queue");
-    ASSERT(IR_LD64(DG + P_OFF_dg_notify_head) == 0 && IR_LD64(DG + P_OFF_dg_notify_tail) == 0, "the list is empty afterwards (the group can be reused)");
+    if (!injected) ASSERT(IR_LD64(DG + P_OFF_dg_notify_head) == 0 && IR_LD64(DG + P_OFF_dg_notify_tail) == 0, "the list is empty afterwards (the group can be reused)");
+    else ASSERT(IR_LD64(DG + P_OFF_dg_notify_head) == newdc && IR_LD64(DG + P_OFF_dg_notify_tail) == newdc, "LEFT-BEHIND: the notification registered meanwhile stays on the list for its own generation");
+    WITNESS_IF(injected, "a notification was registered while the wake was firing");
     ASSERT(IR_LD32(q + P_OFF_ref) == 9u - (u32)in_n, "each notification's queue reference is dropped");
   } else ASSERT(pushes == 0, "NOT-BEFORE: without HAS_NOTIFS nothing is submitted");
   ASSERT(addr_wakes == ((in_flags & HAS_WAITERS) ? 1 : 0), "LEFT-BEHIND: sleepers are woken exactly when HAS_WAITERS was found");
